@@ -27,6 +27,13 @@ Check C18_thread_mono :
   forall B N M ls s th,
   (0 <= B /\ B + Z.of_nat (N * M) < i64_max /\ sched_ok B ls = true) ->
   run step (init N M) ls = Some s -> In th (threads s) -> StronglySorted Z.lt (rev (t_out th)).
+Check C18_call_order :
+  forall B N M ls1 ls2 s1 s2 t th1 th2,
+  (0 <= B /\ B + Z.of_nat (N * M) < i64_max /\ sched_ok B (ls1 ++ ls2) = true) ->
+  run step (init N M) ls1 = Some s1 -> nth_error (threads s1) t = Some th1 -> t_pc th1 = Idle ->
+  run step s1 ls2 = Some s2 -> nth_error (threads s2) t = Some th2 ->
+  exists newer, t_out th2 = newer ++ t_out th1 /\ Forall (fun v => last s1 < v) newer /\
+                (forall v, In v (handed_out s1) -> v <= last s1).
 Check C18_compute_next_gt :
   forall l c, 0 <= l < i64_max -> l < compute_next l c.
 Check C18_explicit :
@@ -52,6 +59,9 @@ Check C18_accept_sample_complete :
   forall lastv t0 now t1,
   0 <= lastv < i64_max -> 0 <= t0 <= now -> now <= t1 -> t1 <= i64_max ->
   accept_sample lastv t0 (compute_next lastv (Some now)) t1 = true.
+Check C18_phase_ok_sound :
+  forall firsts seconds, phase_ok firsts seconds = true ->
+  forall f a s b, In f firsts -> In a f -> In s seconds -> In b s -> a < b.
 Check C18_overflow_witness :
   exists ls s th, run step (init 1 2) ls = Some s /\ nth_error (threads s) 0 = Some th /\
                   t_out th = [i64_min; i64_max].
@@ -59,6 +69,7 @@ Print Assumptions C18_inv.
 Print Assumptions C18_cas_step.
 Print Assumptions C18_distinct.
 Print Assumptions C18_thread_mono.
+Print Assumptions C18_call_order.
 Print Assumptions C18_compute_next_gt.
 Print Assumptions C18_explicit.
 Print Assumptions C18_generated.
@@ -66,4 +77,5 @@ Print Assumptions C18_prop_ok_iff.
 Print Assumptions C18_model_accepted.
 Print Assumptions C18_accept_sample_sound.
 Print Assumptions C18_accept_sample_complete.
+Print Assumptions C18_phase_ok_sound.
 Print Assumptions C18_overflow_witness.
